@@ -1,5 +1,5 @@
 (** Entry point of the extracted runner: one checker per domain. *)
-From Verif Require Import Json Breaker CorrBreaker CorrMatch CorrLoc CorrPindex CorrJs CorrConc CorrCron CorrCrolt CorrCronSys.
+From Verif Require Import Json Breaker CorrBreaker CorrMatch CorrLoc CorrPindex CorrJs CorrConc CorrCron CorrCrolt CorrCronSys CorrService.
 
 Definition check_case (domain : string) (c : json) : json :=
   if String.eqb domain "breaker" then check_breaker c
@@ -11,4 +11,5 @@ Definition check_case (domain : string) (c : json) : json :=
   else if String.eqb domain "cron-sys" then check_cronsys c
   else if String.eqb domain "cron" then check_cron c
   else if String.eqb domain "crolt" then check_crolt c
+  else if String.eqb domain "service" then check_service c
   else JObj [("ok", JBool false); ("why", JStr ("unknown domain " ++ domain))].
